@@ -2436,3 +2436,143 @@ func ruleTipFromTransaction(c *report.Ctx) {
 		}
 	}
 }
+
+// rulePrefixTerminated (C11): a scan over a bucket's entries uses the bucket path plus the separator as prefix.
+func rulePrefixTerminated(c *report.Ctx) {
+	p := c.P
+	c.Rule("prefix-terminated", "every prefix a bucket operation scans with (store iterator and overlay scan) is built by joinBucketPath with a terminating empty element, or by innerKey: a bare bucket path is also a prefix of every sibling whose name merely starts with the same bytes", 6)
+	join := fn(c, pkgLDB, "", "joinBucketPath")
+	if join == nil {
+		return
+	}
+	// does this joinBucketPath call end its arguments with ""?
+	terminated := func(call *ssa.Call) bool {
+		if len(call.Call.Args) != 1 {
+			return false
+		}
+		sl, ok := call.Call.Args[0].(*ssa.Slice)
+		if !ok {
+			// joinBucketPath(ss...) with ss = append(x, "")
+			if ap, ok := call.Call.Args[0].(*ssa.Call); ok {
+				if b, isB := ap.Call.Value.(*ssa.Builtin); isB && b.Name() == "append" && len(ap.Call.Args) == 2 {
+					if s2, ok := ap.Call.Args[1].(*ssa.Slice); ok {
+						sl = s2
+					}
+				}
+			}
+			if sl == nil {
+				return false
+			}
+		}
+		arr, ok := sl.X.(*ssa.Alloc)
+		if !ok {
+			return false
+		}
+		at, ok := arr.Type().Underlying().(*types.Pointer).Elem().Underlying().(*types.Array)
+		if !ok {
+			return false
+		}
+		last := at.Len() - 1
+		for _, r := range *arr.Referrers() {
+			ia, ok := r.(*ssa.IndexAddr)
+			if !ok {
+				continue
+			}
+			if k, isK := constInt(ia.Index); !isK || k != last {
+				continue
+			}
+			for _, rr := range *ia.Referrers() {
+				if st, ok := rr.(*ssa.Store); ok {
+					if kc, isK := st.Val.(*ssa.Const); isK && kc.Value != nil && kc.Value.ExactString() == `""` {
+						return true
+					}
+				}
+			}
+		}
+		return false
+	}
+	var okPrefix func(v ssa.Value, depth int) (bool, string)
+	okPrefix = func(v ssa.Value, depth int) (bool, string) {
+		if depth > 5 {
+			return false, "undecided"
+		}
+		switch x := v.(type) {
+		case *ssa.Const:
+			return x.Value == nil, "constant" // nil prefix = everything (BucketNames-style full scans are not bucket scans)
+		case *ssa.Convert:
+			return okPrefix(x.X, depth+1)
+		case *ssa.Extract:
+			return okPrefix(x.Tuple, depth+1)
+		case *ssa.Call:
+			cal := x.Call.StaticCallee()
+			if cal == nil {
+				return false, p.Desc(v)
+			}
+			switch {
+			case cal == join:
+				if terminated(x) {
+					return true, ""
+				}
+				// nested: joinBucketPath(a, joinBucketPath(ss...))
+				if sl, ok := x.Call.Args[0].(*ssa.Slice); ok {
+					if arr, ok := sl.X.(*ssa.Alloc); ok {
+						for _, r := range *arr.Referrers() {
+							if ia, ok := r.(*ssa.IndexAddr); ok {
+								for _, rr := range *ia.Referrers() {
+									if st, ok := rr.(*ssa.Store); ok {
+										if inner, ok := st.Val.(*ssa.Call); ok && inner.Call.StaticCallee() == join && terminated(inner) {
+											return true, ""
+										}
+									}
+								}
+							}
+						}
+					}
+				}
+				return false, "joinBucketPath(…) without the terminating empty element"
+			case strings.HasPrefix(cal.Name(), "innerKey"):
+				return true, ""
+			}
+			return false, p.Desc(v)
+		case *ssa.Parameter:
+			return true, "" // checked at the callers
+		case *ssa.Phi:
+			for _, e := range x.Edges {
+				if ok, why := okPrefix(e, depth+1); !ok {
+					return false, why
+				}
+			}
+			return true, ""
+		}
+		return false, p.Desc(v)
+	}
+	for _, f := range p.ModFuncs {
+		if pk := an.FuncPkg(f); pk == nil || pk.Path() != pkgLDB {
+			continue
+		}
+		n := 0
+		an.Instrs(f, func(in ssa.Instruction) {
+			cc := an.CallOf(in)
+			if cc == nil || cc.StaticCallee() == nil || len(cc.Args) == 0 {
+				return
+			}
+			k := an.FuncKey(cc.StaticCallee())
+			var arg ssa.Value
+			switch {
+			case strings.HasSuffix(k, "leveldb/util.BytesPrefix"):
+				arg = cc.Args[0]
+			case strings.HasSuffix(k, "ldb.batch).GetNetPutsByPrefix"):
+				arg = cc.Args[1]
+			default:
+				return
+			}
+			n++
+			key := siteKey(f, "scan-prefix", n)
+			if ok, why := okPrefix(arg, 0); ok {
+				c.OK(key, "prefix ends with the separator / is an inner key", posOf(c, in))
+			} else {
+				c.Fail(key, sk(f)+" scans with the prefix "+why+": without the separator that ends the bucket name the scan also covers every sibling bucket whose name starts with the same bytes — deleting or clearing bucket \"ab\" wipes the entries of \"abc\"", posOf(c, in))
+			}
+		})
+	}
+}
